@@ -39,7 +39,13 @@ pub type ParseResult<T> = Result<T, ParserError>;
 pub struct Parser {
     lexer: Lexer,
     current_token: Token,
+    /// Depth of the expression tree being built: nesting of [Parser::parse_expr_bp] plus the
+    /// operators chained at each level (every one of them adds a level to the tree).
+    depth: usize,
 }
+
+/// Expression trees deeper than this are rejected (the parser and every later pass recurse over the tree).
+const MAX_EXPRESSION_DEPTH: usize = 200;
 
 impl Parser {
     pub fn new(sql: &str) -> Self {
@@ -48,6 +54,7 @@ impl Parser {
         Parser {
             lexer,
             current_token,
+            depth: 0,
         }
     }
 
@@ -88,6 +95,19 @@ impl Parser {
     /// Obtains the expression binding power using a Pratt Parsing approach.
     /// I recommend this read on Pratt Parsing: https://matklad.github.io/2020/04/13/simple-but-powerful-pratt-parsing.html
     fn parse_expr_bp(&mut self, min_bp: u8) -> ParseResult<Expr> {
+        if self.depth >= MAX_EXPRESSION_DEPTH {
+            return Err(ParserError::InvalidExpression(
+                "expression nested too deeply".to_string(),
+            ));
+        }
+        let entered_at = self.depth;
+        self.depth += 1;
+        let result = self.parse_expr_bp_inner(min_bp);
+        self.depth = entered_at;
+        result
+    }
+
+    fn parse_expr_bp_inner(&mut self, min_bp: u8) -> ParseResult<Expr> {
         let mut lhs = self.parse_prefix()?;
 
         while let Some((l_bp, r_bp)) = self.infix_binding_power() {
@@ -95,6 +115,12 @@ impl Parser {
                 break;
             }
 
+            if self.depth >= MAX_EXPRESSION_DEPTH {
+                return Err(ParserError::InvalidExpression(
+                    "expression nested too deeply".to_string(),
+                ));
+            }
+            self.depth += 1;
             lhs = self.parse_infix(lhs, r_bp)?;
         }
 
